@@ -75,6 +75,13 @@ def st1_stop_is_close_plus_join(ctx, rep, entry="stop", body=None):
         on_taken = [j for j in joins if strip_wrap(j.args[0]) == ("vfield", tk.result, "Some", 0)]
         pre = [j for j in joins if j not in on_taken and p.events.index(j) < p.events.index(tk) and _is_slot(ctx, j.args[0], A.f_pool)
                and not any(st[0] == "take" for st in subterms(j.args[0]))]
+        # the join is the timed one: a callback on the reducer thread that calls stop() (a
+        # subscriber ending the store on a terminal action) joins its own thread - with the
+        # timeout it gets out and the backlog is still worked off, without it the reducer thread
+        # waits for itself forever
+        for j in joins:
+            rep.check(j.ck.endswith("_timeout"), R, "join-is-timed:" + fn, ctx.where(stop, j.bb), "path [%s]: the pool join is bounded (%s)" % (p.describe(), j.ck.split("::")[-1]),
+                      "path [%s]: %s waits without a bound: stop() called from a callback on the reducer thread never returns" % (p.describe(), j.ck.split("::")[-1]))
         if some:
             good = (len(on_taken) == 1 or (not on_taken and len(pre) >= 1)) and len(on_taken) + len(pre) == len(joins)
             rep.check(good, R, "joins-taken-pool:" + fn, ctx.where(stop, joins[0].bb) if joins else ctx.where(stop), "path [%s] joins the pool it took" % p.describe(), "path [%s]: %d join call(s), %d of them on the pool of the slot; stop() is not a barrier" % (p.describe(), len(joins), len(on_taken) + len(pre)))
